@@ -111,6 +111,11 @@ pub fn items() -> Vec<Item> {
         it("SUM(r * 0.001)", "SUM", "r*0.001", false),
         it("SUM(r * 0.004)", "SUM", "r*0.004", false),
         it("MAX(r * 0.004)", "MAX", "r*0.004", false),
+        // the group key next to the aggregate in one expression (only well-formed when g is part of GROUP BY)
+        it("MAX(v) + g", "MAX+g", "v", false),
+        it("g + MAX(v)", "MAX+g", "v", false),
+        it("SUM(v) * 10 + g", "SUM*10+g", "v", false),
+        it("COUNT(v) + g", "COUNT+g", "v", true),
     ]
 }
 
@@ -217,6 +222,23 @@ fn agg_value(item: &Item, rows: &[&Row]) -> Cell {
         },
         "MIN" => extreme(Ordering::Less),
         "MAX" => extreme(Ordering::Greater),
+        "MAX+g" | "SUM*10+g" | "COUNT+g" => {
+            // g is part of the group key: every row of the group carries the same value
+            let g = rows.first().map(|r| r["g"].clone()).unwrap_or(RVal::Null);
+            let base = match item.kind {
+                "MAX+g" => extreme(Ordering::Greater),
+                "SUM*10+g" => match sum() {
+                    Cell::Val(RVal::Int(i)) => v(RVal::Int(i * 10)),
+                    other => other,
+                },
+                _ => v(RVal::Int(vals.len() as i64)),
+            };
+            match (base, g) {
+                (Cell::Val(RVal::Int(a)), RVal::Int(b)) => v(RVal::Int(a + b)),
+                (Cell::Val(RVal::Null), _) | (Cell::Val(_), RVal::Null) => v(RVal::Null),
+                _ => Cell::Open,
+            }
+        }
         "MAX+1" => match extreme(Ordering::Greater) {
             Cell::Val(RVal::Int(i)) => v(RVal::Int(i + 1)),
             Cell::Val(RVal::Null) => v(RVal::Null),
@@ -316,6 +338,9 @@ pub fn well_formed(st: &Stmt) -> bool {
         }
     }
     if st.having == 2 && !keys.contains(&"k") {
+        return false;
+    }
+    if st.items.iter().any(|i| its[*i].kind.ends_with("+g")) && !keys.contains(&"g") {
         return false;
     }
     if st.items.iter().all(|i| its[*i].kind == "key") {
@@ -593,7 +618,7 @@ fn statements(thorough: bool) -> Vec<Stmt> {
                     continue;
                 }
                 // the wrapped counts (items 29, 30) are paired with a reduced partner set in the quick tier
-                if !thorough && (a >= 29 || bq >= 29) && ![0usize, 3, 7, 13].contains(&a.min(bq)) && !(a >= 31 && bq >= 31) {
+                if !thorough && (a >= 29 || bq >= 29) && ![0usize, 1, 3, 7, 13].contains(&a.min(bq)) && !(a >= 31 && bq >= 31 && a < 34 && bq < 34) {
                     continue;
                 }
                 // quick tier: under the HAVING variants other than COUNT(*) > 1 the second item comes from a reduced set
